@@ -85,13 +85,62 @@ def rule_tree_surgery(db: ProgramDB) -> List[Instance]:
             if not any("isinstance" in unparse(t) and P in unparse(t) for t in g):
                 guarded = False
         if set(relinks) == {"left", "right"}:
-            tests = " ".join(unparse(t) for a in relinks.values() for t in _enclosing_tests(db, a))
-            ident = (f"{P}.left is" in tests or f"is {P}.left" in tests or f"{P}.right is" in tests or f"is {P}.right" in tests)
-            ok = ident and guarded
+            # decided by running the re-link statements for every kind of parent operator and either position of the wrapped
+            # node: exactly the slot that held it is re-pointed
+            from ..boolexpr import eval_bool
+            relink_ids = {id(a): slot for slot, a in relinks.items()}
+            node_aliases = {node_name} | {n for n, ds in local_defs(fn).items() if any(isinstance(d, ast.AST) and unparse(d) == node_name for d in ds)}
+            node_aliases |= {unparse(d) for d in local_defs(fn).get(node_name, []) if isinstance(d, ast.AST)}
+            parents = sorted([c for c in bo.all_subclasses() if "ABC" not in c.external_bases], key=lambda c: c.qualname)
+
+            def run(stmts, env, done):
+                for st in stmts:
+                    if id(st) in relink_ids:
+                        done.append(relink_ids[id(st)])
+                    elif isinstance(st, ast.If):
+                        run(st.body if eval_bool(st.test, env["atom"], env["vals"]) else st.orelse, env, done)
+                    elif isinstance(st, (ast.For, ast.While, ast.With, ast.Try)):
+                        if any(id(x) in relink_ids for x in ast.walk(st)):
+                            raise AnalysisError("re-link inside a loop / with / try")
+                return done
+            bad = None
+            n_cases = 0
+            try:
+                for pc in parents:
+                    for cur_left in (True, False):
+                        def atom(e, pc=pc):
+                            if isinstance(e, ast.Call) and dotted(e.func) == "isinstance" and len(e.args) == 2 and unparse(e.args[0]) == P:
+                                return "ISA:" + unparse(e.args[1])
+                            if isinstance(e, ast.Compare) and len(e.ops) == 1 and isinstance(e.ops[0], (ast.Is, ast.IsNot, ast.Eq, ast.NotEq)):
+                                l, r = unparse(e.left), unparse(e.comparators[0])
+                                for a_, b_ in ((l, r), (r, l)):
+                                    if a_ in (f"{P}.left", f"{P}.right") and b_ in node_aliases:
+                                        neg = "!" if isinstance(e.ops[0], (ast.IsNot, ast.NotEq)) else ""
+                                        return neg + ("CUR_LEFT" if a_.endswith(".left") else "CUR_RIGHT")
+                            return None
+                        vals = {"CUR_LEFT": cur_left, "CUR_RIGHT": not cur_left}
+
+                        class _V(dict):
+                            def __missing__(self, k, pc=pc):
+                                if k.startswith("ISA:"):
+                                    names = [x.strip() for x in k[4:].strip("()").split(",")]
+                                    return any(pc.name == nm.split(".")[-1] or pc.is_subclass_of(nm.split(".")[-1]) for nm in names if nm)
+                                raise KeyError(k)
+                        done = run(fn.node.body, {"atom": atom, "vals": _V(vals)}, [])
+                        n_cases += 1
+                        want = ["left"] if cur_left else ["right"]
+                        if done != want and bad is None:
+                            bad = (pc.name, "left" if cur_left else "right", done)
+            except (AnalysisError, KeyError) as e:
+                out.append(inst("TREE-SURGERY", UNDECIDED, fn, f"{key}[re-link operand slot]", f"the re-link statements could not be evaluated: {e}", line=attach[0].lineno))
+                continue
+            ok = bad is None and n_cases > 0
             out.append(inst("TREE-SURGERY", HOLDS if ok else VIOLATION, fn, f"{key}[re-link operand slot]",
-                            f"the operand slot of `{P}` that held the wrapped node is re-pointed to `{W}` "
-                            f"(slot chosen by identity)" if ok else
-                            f"both slots of `{P}` are assigned without testing which one held the wrapped node",
+                            f"for each of {len(parents)} kinds of parent operator and either position, exactly the operand slot of `{P}` that held the wrapped "
+                            f"node is re-pointed to `{W}`" if ok else
+                            (f"when the wrapped node is the {bad[1]} operand of a {bad[0]}, the slot(s) re-pointed to `{W}` are {bad[2] or 'none'}: the "
+                             f"operand that held the node keeps pointing at it (the refinement is never consulted) and the other operand - an alternative "
+                             f"chained to the node before it was refined - is overwritten" if bad else "no parent operator class found"),
                             line=attach[0].lineno))
             continue
         slot = next(iter(relinks))
